@@ -68,6 +68,7 @@ def run(prog, chk):
     _run(prog, chk)
     dump_closure_table(prog, chk)
     anchor_removal_table(prog, chk)
+    shared_edit_rule(prog, chk)
 
 
 def _run(prog, chk):
@@ -340,3 +341,57 @@ def anchor_removal_table(prog, chk):
         chk.ob("C11.anchor", inst, ok, "expected KSI_OK, elements left %s, both anchor objects dropped; source: status %s, elements left %s, objects %s / %s" % (
             [("%#x" % tags[k]) for k in want], q.ret, [("%#x" % tags[k]) for k in cur], I.read(q, "SIG->calendarAuthRec"), I.read(q, "SIG->publication")),
             loc=fn.loc(), fn=fn, nontrivial=any(t in (0x803, 0x805) for t in tags))
+
+
+def shared_edit_rule(prog, chk):
+    """Deriving a signature must not change what other signatures are made of.  A function that BOTH stores a reference to its
+    parameter object in a longer-lived object (X_ref(p) into a list or a field) AND edits that parameter in place (a setter on p, an
+    insertion into a list obtained from p) leaves the caller - and every other object that holds p - with an edited object: a second
+    derivation with the same p, or a later verification of an earlier derivation, sees the edit.  Who-shares-and-edits rule over the
+    signature / builder units."""
+    chk.rule("C11.sharededit", "no function both keeps a reference to a caller's object and edits that object in place", floor=3)
+    n = 0
+    for fn in sorted(prog.all_functions(), key=lambda f: (f.unit, f.line)):
+        if fn.unit not in ("signature_builder.c", "signature.c", "blocksigner.c", "tree_builder.c"):
+            continue
+        params = {p["n"] for p in fn.params if "*" in (p.get("t") or "")}
+        shared, edited = {}, {}
+        derived = {}        # local -> parameter it was obtained from through a getter (X_getY(p, &local))
+        for b, i, c in fn.calls():
+            nm = c.get("fn") or ""
+            if re.search(r"_get\w+$", nm) and len(c["a"]) >= 2 and is_var(strip(c["a"][0])) and strip(c["a"][0])["n"] in params:
+                out = strip(c["a"][1])
+                if isinstance(out, dict) and out.get("k") == "un" and out.get("op") == "&" and is_var(strip(out["e"])):
+                    derived[strip(out["e"])["n"]] = strip(c["a"][0])["n"]
+        for b, i, c in fn.calls():
+            nm = c.get("fn") or ""
+            # kept: X_ref(p) as an argument of a list insertion / append, or assigned to a field
+            if re.search(r"List_(append|insertAt|replaceAt)$", nm):
+                for a in c["a"][1:]:
+                    for m in walk(fn.deep(a)):
+                        if m.get("k") == "call" and (m.get("fn") or "").endswith("_ref") and m["a"] and is_var(strip(m["a"][0])) and strip(m["a"][0])["n"] in params:
+                            shared.setdefault(strip(m["a"][0])["n"], fn.elem_line(b, i))
+                tgt = strip(c["a"][0])
+                if is_var(tgt) and tgt["n"] in derived:
+                    edited.setdefault(derived[tgt["n"]], "%s into a list of it (line %s)" % (nm, fn.elem_line(b, i)))
+            if re.search(r"^KSI_\w+_set[A-Z]\w*$", nm) and c["a"] and is_var(strip(c["a"][0])) and strip(c["a"][0])["n"] in params:
+                a1 = fn.resolve(strip(c["a"][1])) if len(c["a"]) > 1 else None
+                edited.setdefault(strip(c["a"][0])["n"], "%s (line %s)" % (nm, fn.elem_line(b, i)))
+        for b, i, m in fn.nodes():
+            if m.get("k") == "asg" and strip(m["l"]).get("k") == "mem":
+                for x in walk(fn.deep(m["r"])):
+                    if x.get("k") == "call" and (x.get("fn") or "").endswith("_ref") and x["a"] and is_var(strip(x["a"][0])) and strip(x["a"][0])["n"] in params:
+                        base = strip(m["l"])
+                        while isinstance(base, dict) and base.get("k") == "mem":
+                            base = strip(base.get("b"))
+                        if not (is_var(base) and base["n"] == strip(x["a"][0])["n"]):
+                            shared.setdefault(strip(x["a"][0])["n"], fn.elem_line(b, i))
+        if shared:
+            n += 1
+            both = sorted(set(shared) & set(edited))
+            chk.ob("C11.sharededit", "%s:%s" % (fn.name, ",".join(sorted(shared))), not both,
+                   "keeps a reference to %s%s" % (sorted(shared), "; none of them is edited here" if not both else
+                                                   " and edits %s in place: %s - every other holder of the object sees the edit" % (both, [edited[p] for p in both])),
+                   loc=fn.loc(), fn=fn)
+    if n < 3:
+        raise AnalysisBroken("C11.sharededit: only %d functions that keep a reference to a parameter recognised" % n)
